@@ -156,7 +156,7 @@ static void jitter() {
 }
 
 void point(const void* addr, int kind, int mo) {
-  if (cfg.mode == M_PASS) return;
+  if (cfg.mode == M_PASS || cfg.mode == M_SERIAL) return;
   if (cfg.mode == M_JITTER) { jitter(); return; }
   int me = tl_tid;
   if (me < 0) return;
@@ -180,6 +180,62 @@ void point(const void* addr, int kind, int mo) {
     current = next;
     sem_post(&slots[next].sem);
     waitTurn(me);
+  }
+}
+
+// ---- serialized operation stream ---------------------------------------------------------
+static std::atomic<int> G(0);
+static std::vector<OpRec> stream;
+static bool streamOn = false;
+static std::atomic<int> nextIndex(0);
+static thread_local int tl_index = -1;
+int thread_index() {
+  if (tl_index < 0) tl_index = nextIndex.fetch_add(1);
+  return tl_index;
+}
+void stream_on(bool on) { streamOn = on; }
+long drain(OpRec* buf, long cap) {
+  long n = (long)stream.size() < cap ? (long)stream.size() : cap;
+  for (long i = 0; i < n; ++i) buf[i] = stream[i];
+  stream.erase(stream.begin(), stream.begin() + n);
+  return n;
+}
+static inline void lockG() { int z = 0; while (!G.compare_exchange_weak(z, 1, std::memory_order_acquire)) { z = 0; sched_yield(); } }
+static inline void unlockG() { G.store(0, std::memory_order_release); }
+
+OpScope::OpScope(const void* a, int kind, int mo, bool isWrite) : held(false), write(isWrite), addr(a), idx(-1) {
+  if (cfg.mode == M_SERIAL) {
+    if (!streamOn || kind == K_SPIN) return;
+    lockG();
+    held = true;
+    idx = (long)stream.size();
+    stream.push_back(OpRec{thread_index(), a, (short)kind, (short)mo});
+    return;
+  }
+  if (cfg.mode == M_CTL && streamOn && tl_tid >= 0 && kind != K_SPIN) {
+    point(a, kind, mo);                 // the switch happens before the operation: log when it is our turn again
+    idx = (long)stream.size();
+    stream.push_back(OpRec{tl_tid, a, (short)kind, (short)mo});
+    return;
+  }
+  point(a, kind, mo);
+}
+void OpScope::failed(int fmo) {
+  if (idx >= 0 && idx < (long)stream.size()) { stream[idx].kind = (short)K_LOAD; stream[idx].mo = (short)fmo; }
+  write = false;
+}
+OpScope::~OpScope() {
+  if (held) { unlockG(); return; }
+  if (write) wrote(addr);
+}
+void plain(int var, bool isWrite) {
+  if (!streamOn) return;
+  if (cfg.mode == M_SERIAL) {
+    lockG();
+    stream.push_back(OpRec{thread_index(), (const void*)(long)var, (short)(isWrite ? 21 : 20), 0});
+    unlockG();
+  } else if (cfg.mode == M_CTL && tl_tid >= 0) {
+    stream.push_back(OpRec{tl_tid, (const void*)(long)var, (short)(isWrite ? 21 : 20), 0});
   }
 }
 
@@ -210,7 +266,7 @@ static void regionReset() {
 using namespace verif;
 
 extern "C" void galois_verif_spin() {
-  if (cfg.mode == M_PASS) return;
+  if (cfg.mode == M_PASS || cfg.mode == M_SERIAL) return;
   point(nullptr, K_SPIN, 0);
 }
 
